@@ -188,6 +188,15 @@ CHECKS = {
             "Trusted: TLC, LeProHQ. Bound at Q2/m2 = 1e5, 1e6: 5e-3 of the F2-type row scale (largest value on the pinned tree 9.8e-4; the "
             "massive O(a_s^2) library shows isolated spikes at intermediate ratios, so no step-by-step bound). Known findings: missing channel.",
             "DESIGN.md 7/C08"),
+    "C19": ("exploration",
+            "TLC-enumerated grid family and refinement relations (Refinement.tla); real runs differing only in interpolation settings (all "
+            "members in one process) contracted with a smooth PDF; TLC judges every (case, x, xiF) line",
+            "Convergence is a statement of analysis and is sampled: six grids (two of equal size and different spacing, degrees 3-5, a "
+            "medium and a reference grid), three (thorough six) observable/process/order cases, x from 2e-3 to 0.93, xiF = 1 and 2, plus a "
+            "request exactly on a node against one displaced by 1e-9. The specification supplies the family, the caps per member and x "
+            "region, 'finer is not worse' and the node-continuity bound, and takes the verdict.",
+            "Trusted: TLC, eko interpolation. Caps are >= 5 x the deviations measured on the pinned tree (table in Refinement.tla); defects in "
+            "the handling of nodes / interpolation blocks / cached operators show up at 1e-2 .. 1.", "DESIGN.md 7/C19"),
 }
 
 PENDING = {}
